@@ -9,6 +9,15 @@ from vt import common
 from vt.e1 import engine
 
 
+def _shipped_plan(prop):
+    """Core scenarios repeated on the shipped suite in the thorough tier."""
+    from vt.e1 import scenarios as S
+
+    DL = (1.0, 0.5, 3.0, 5.0)
+    return {"C01": lambda: [(S.T2(), 1), (S.T3(), 0)], "C02": lambda: [(S.T2(O=S.PF), 1)], "C03": lambda: [(S.T2(), 1), (S.T2(params={"max_tries": 2}), 0)],
+            "C04": lambda: [(S.T2(D=DL), 1)], "C05": lambda: [(S.G1(), 0)], "C08": lambda: [(S.T2(), 1)]}.get(prop)
+
+
 def _explore_one(args):
     scn, monitor, k, deadline, seed = args
     t0 = time.time()
@@ -18,7 +27,7 @@ def _explore_one(args):
 
 
 def run_e1(prop, tier, seed, technique, plan, monitor, quick_budget, thorough_budget, rule, assumptions, matcher=None,
-           suite="mini", post=None, parallel_scenarios=False):
+           suite="mini", post=None, parallel_scenarios=False, shipped=None):
     """plan: list of (Scenario, k) explored in order; a wall-clock cap may cut the tail (reported, never hidden)."""
     common.bootstrap(suite)
     engine.install_memo()
@@ -81,6 +90,32 @@ def run_e1(prop, tier, seed, technique, plan, monitor, quick_budget, thorough_bu
             rep.violation(f"[{scn.name}] {v['what']}", v["replay"], sig)
         if post is not None:
             post(rep, scn, res)
+    # the same core scenario on the SHIPPED suite (thorough tier): nothing may depend on the trimmed guest configs of the mini-suite
+    shipped = shipped or _shipped_plan(prop)
+    if tier == "thorough" and shipped is not None and time.time() < t_end:
+        common.bootstrap("shipped")
+        for scn, k in shipped():
+            scn.suite = "shipped"
+            scn.name += "@shipped-suite"
+            now = time.time()
+            res = engine.explore(scn, monitor, k, max(t_end, now + 300), seed)
+            rep.evaluations += res.executions
+            rep.traces_validated += res.executions
+            rep.transitions += res.transitions
+            rep.states += len(res.histories)
+            for sig in res.outcomes:
+                rep.distinct.add((scn.name, sig))
+            per_scn.append({"scenario": scn.name, "k": k, "executions": res.executions, "complete": res.complete, "distinct_outcomes": len(res.outcomes),
+                            "violating_executions": len(res.violations), "wall_s": round(time.time() - now, 1)})
+            seen_sig = set()
+            for v in res.violations:
+                sig = dict(v.get("signature") or {})
+                key = json.dumps(sig, sort_keys=True)
+                if key in seen_sig:
+                    continue
+                seen_sig.add(key)
+                rep.violation(f"[{scn.name}] {v['what']}", v["replay"], sig)
+        common.bootstrap(suite)
     # binding of the world model to the real state code: replay the default schedule of every scenario with each state-control request
     # also answered by the real states.setup over the real pool scope logic (in-memory leaf stores)
     engine.BINDING.update({"on": True, "validated": 0, "mismatches": []})
